@@ -156,6 +156,15 @@ func init() {
 			if int(c.Replay["body_len"].(float64)) != len(body) {
 				// long bodies are rebuilt from their description
 				d := c.Replay["desc"].(map[string]any)
+				if d["kind"] == "ascii-head" {
+					var tail []byte
+					fmt.Sscanf(d["tail_hex"].(string), "%x", &tail)
+					body = []byte(d["marker"].(string))
+					for len(body) < int(d["head"].(float64)) {
+						body = append(body, "abcdefghij"[len(body)%10])
+					}
+					body = append(body, tail...)
+				}
 				if d["kind"] == "window" {
 					body = c20WindowBody(int(d["offset"].(float64)), d["marker"].(string), int(d["high"].(float64)), d["tail"].(string))
 				}
@@ -227,6 +236,24 @@ func init() {
 			mu.Unlock()
 		})
 		c.Run.Sample(map[string]any{"window_case": "filler(16380 bytes, 7 of them >= 0x80) + '<script' + '>x'", "expected": "ambiguous band or injection depending on decoded offset"})
+		// bodies longer than the window whose first 16 KiB are plain ASCII and whose
+		// high bytes come only afterwards (with and without a marker before them):
+		// every byte must come back
+		for _, headLen := range []int{c20Window - 1, c20Window, c20Window + 1, 3 * c20Window} {
+			for _, tail := range []string{"\xc3\xa9", "\xe9", "\xe6\x97\xa5\xe6\x9c\xac", "\xff\xfe<script>", "<\xe9/head>"} {
+				for _, marker := range []string{"", "<link rel=x>", "</HEAD>"} {
+					body := []byte(marker)
+					for len(body) < headLen {
+						body = append(body, "abcdefghij"[len(body)%10])
+					}
+					body = append(body, tail...)
+					desc := map[string]any{"kind": "ascii-head", "head": headLen, "tail_hex": fmt.Sprintf("%x", tail), "marker": marker}
+					c20Check(c, body, false, desc)
+					c20Check(c, body, true, desc)
+					evals += 2
+				}
+			}
+		}
 		// (iii) byte probes
 		for b := 0; b < 256; b++ {
 			for _, body := range [][]byte{{byte(b)}, append([]byte{byte(b)}, "<script>"...), append([]byte("</head>"), byte(b)), {byte(b), '<', 'l', 'i', 'n', 'k', byte(b)}} {
